@@ -257,6 +257,7 @@ type agg struct {
 	k          int
 	logs       [][]world.WriteRec
 	gapAtCrash bool // a crash happened while accepted heights were not yet included
+	held       bool // action S stopped the inclusion loop; the next X/Y action starts it again
 	curM       atomic.Pointer[world.Node]
 }
 
@@ -271,8 +272,23 @@ func (a *agg) start() error {
 	}
 	a.n = n
 	a.curM.Store(n)
+	a.held = false
+	// what a node reports the moment it is constructed (before any of its loops runs) is what it took over from the
+	// previous process: it must not be below anything reported before (reported <= persisted at every instant)
+	a.o.r.Hit("monotone-at-start")
+	if d := n.M.GetDAIncludedHeight(); d < a.o.lastD {
+		a.o.bad("DA-included height went down across a restart: %d had been reported, the restarted node starts from %d", a.o.lastD, d)
+	}
 	a.l = world.StartLoops(a.ctx, n, "daIncluder")
 	return nil
+}
+
+// resume starts the inclusion loop again after action S.
+func (a *agg) resume() {
+	if a.held {
+		a.held = false
+		a.l = world.StartLoops(a.ctx, a.n, "daIncluder")
+	}
 }
 
 func (a *agg) height() uint64 { h, _ := a.n.Store.Height(a.ctx); return h }
@@ -334,11 +350,21 @@ func (a *agg) do(act string) error {
 		return nil
 	case act == "I":
 		return a.l.SignalBarrier("daIncluder", "daIncluder")
+	case act == "S":
+		// the inclusion loop is held back: what the following H/D actions get accepted stays unlooked-at until the X/Y
+		// action after them has armed its fault and lets the loop run again. (Without this the loop, woken by the
+		// submission itself, has usually finished the pass before the fault is armed.)
+		if err := a.l.Stop(); err != nil {
+			return err
+		}
+		a.held = true
+		return nil
 	case strings.HasPrefix(act, "X"):
 		// the process dies inside an inclusion pass, after k more durable writes
 		k := 0
 		fmt.Sscanf(act[1:], "%d", &k)
 		a.n.DS.CrashAfter(k)
+		a.resume()
 		_ = a.l.SignalBarrier("daIncluder", "daIncluder") // the loop may die on the failing write
 		if a.n.DS.Crashed() {
 			a.o.r.Hit("crash-inside-inclusion-pass")
@@ -351,6 +377,7 @@ func (a *agg) do(act string) error {
 		k := 1
 		fmt.Sscanf(act[1:], "%d", &k)
 		a.n.DS.FailWriteAt(k)
+		a.resume()
 		_ = a.l.SignalBarrier("daIncluder", "daIncluder")
 		a.n.DS.FailWriteAt(0)
 		a.o.r.Hit("write-failure-inside-inclusion-pass")
@@ -368,6 +395,7 @@ func (a *agg) do(act string) error {
 		_ = a.n.M.VerifSubmitDataOnce(a.ctx)
 		a.o.r.Hit("stop-between-acceptance-and-inclusion")
 		a.c.cleanRestartHit(a.o.r)
+		a.o.observe(a.height())
 		a.logs = append(a.logs, a.n.DS.Log())
 		if err := a.n.M.SaveCache(); err != nil {
 			return fmt.Errorf("SaveCache: %w", err)
@@ -380,6 +408,7 @@ func (a *agg) do(act string) error {
 		a.logs = append(a.logs, a.n.DS.Log())
 		if act == "R" {
 			a.c.cleanRestartHit(a.o.r)
+			a.o.observe(a.height()) // the last thing this process reported (see start)
 			if err := a.n.M.SaveCache(); err != nil {
 				return fmt.Errorf("SaveCache: %w", err)
 			}
@@ -436,7 +465,9 @@ func runAgg(r *vk.Run, c Case) {
 			a.o.bad("action %d (%s) failed: %v", i, act, err)
 			break
 		}
-		actors[act[:1]] = true
+		if act != "S" {
+			actors[act[:1]] = true
+		}
 		d := a.o.observe(a.height())
 		a.soundness(d)
 		dMoved = d - d0
@@ -723,7 +754,7 @@ func genFull(rng *rand.Rand, p *world.Produced, id int) (Case, []world.Action) {
 // Run is the check entry point.
 func Run(r *vk.Run) {
 	world.Silence()
-	r.Rule = "seeded interleavings on (a) a real aggregator: {produce non-empty/empty, one header-submission iteration, one data-submission iteration (each with outcome accept | prefix | error | ack lost | timed out), inclusion pass of the real DAIncluderLoop, clean restart (SaveCache), crash restart}; (b) a real full node fed through DA only: blobs of a proposer chain placed into DA heights in generated groupings and orders, scans by the real RetrieveLoop, inclusion passes, clean and crash restarts. Monitors at the SetFinal call and at the persist write give the order finalize -> persist -> report; soundness is judged against the contents of the DA double; bounded liveness = three clean rounds after faults stop. non-trivial = DA-included height advanced >= 2 and >= 3 (aggregator) / >= 2 (full node) kinds of actors interleaved; distinct by action list. Two generated cases in five (and a copy of every crafted clean-stop case) run with a db_path other than the default (custom-db, a/b); where the node keeps its cache snapshots is the node's business: the harness only calls SaveCache and, for a crash, empties the node's root directory (the database itself is in memory). Separate trigger regions: aggregator crash with accepted-but-not-included blocks (C07-marks-lost-on-crash), repeated tx lists (C07-commitment-keyed-marks)"
+	r.Rule = "seeded interleavings on (a) a real aggregator: {produce non-empty/empty, one header-submission iteration, one data-submission iteration (each with outcome accept | prefix | error | ack lost | timed out), inclusion pass of the real DAIncluderLoop, clean restart (SaveCache), crash restart; in the crafted fault cases the inclusion loop is held (S) while three blocks are accepted, so that the whole pass that includes them runs with the fault armed}; (b) a real full node fed through DA only: blobs of a proposer chain placed into DA heights in generated groupings and orders, scans by the real RetrieveLoop, inclusion passes, clean and crash restarts. Monitors at the SetFinal call and at the persist write give the order finalize -> persist -> report; soundness is judged against the contents of the DA double; bounded liveness = three clean rounds after faults stop. non-trivial = DA-included height advanced >= 2 and >= 3 (aggregator) / >= 2 (full node) kinds of actors interleaved; distinct by action list. Two generated cases in five (and a copy of every crafted clean-stop case) run with a db_path other than the default (custom-db, a/b); where the node keeps its cache snapshots is the node's business: the harness only calls SaveCache and, for a crash, empties the node's root directory (the database itself is in memory). Separate trigger regions: aggregator crash with accepted-but-not-included blocks (C07-marks-lost-on-crash), repeated tx lists (C07-commitment-keyed-marks)"
 	r.Assume("DA double: accepted = stored by the double; a full node's 'observed' = blob present at a DA height not above the double's current height")
 	r.Assume("SetFinal never fails in these runs (its failure terminates the inclusion loop by design)")
 	rng := r.Rand("cases")
@@ -753,14 +784,14 @@ func Run(r *vk.Run) {
 	// that includes them (record header DA height, record data DA height, [finalize], persist the new height - per block)
 	for _, shape := range [][]string{{"P", "P", "P"}, {"P", "Pe", "P"}, {"Pe", "P", "Pe"}, {"Pe", "Pe", "Pe"}} {
 		for _, initial := range []uint64{1, 3} {
-			for k := 0; k <= 10; k++ {
+			for k := 0; k <= 13; k++ { // genesis block + three blocks: up to twelve writes in the pass
 				c := Case{ID: id, Node: "aggregator", Initial: initial}
-				c.Actions = append(append([]string{}, shape...), "H", "D", fmt.Sprintf("X%d", k), "P", "H", "D", "I", "R", "I")
+				c.Actions = append(append([]string{}, shape...), "S", "H", "D", fmt.Sprintf("X%d", k), "P", "H", "D", "I", "R", "I")
 				addJob(job{c: c})
 				id++
-				if k >= 1 && k <= 9 {
+				if k >= 1 && k <= 12 {
 					c2 := Case{ID: id, Node: "aggregator", Initial: initial}
-					c2.Actions = append(append([]string{}, shape...), "H", "D", fmt.Sprintf("Y%d", k), "I", "P", "H", "D", "I")
+					c2.Actions = append(append([]string{}, shape...), "S", "H", "D", fmt.Sprintf("Y%d", k), "I", "P", "H", "D", "I")
 					addJob(job{c: c2})
 					id++
 				}
